@@ -152,21 +152,29 @@ class STRtreeModel:
         core.ctx().event('STRtree', self.geoms)
 
     def query(self, geometry, predicate=None, distance=None):
-        if predicate is None:
-            raise Unsupported('STRtree.query without predicate (bounding-box semantics)')
+        if distance is not None and predicate != 'dwithin':
+            raise Unsupported('STRtree.query with a distance but not the dwithin predicate')
         c = core.ctx()
         c.event('STRtree.query', self.geoms, geometry, predicate)
-        pred = _fn('pred_' + str(predicate), GeomSort, GeomSort, z3.BoolSort())
+        # without a predicate the query is on bounding boxes only (SH-STRTREE-BBOX): every geometry that intersects the query geometry
+        # has an overlapping box, the converse does not hold
+        pred = _fn('pred_' + ('bbox' if predicate is None else str(predicate)), GeomSort, GeomSort, z3.BoolSort())
+        inter = _fn('pred_intersects', GeomSort, GeomSort, z3.BoolSort())
         q = geom_term(geometry)
         geoms = self.geoms
+
+        def holds(t):
+            if predicate is None:
+                core.ctx().assume(z3.Implies(inter(q, t), pred(q, t)))
+            return mk_bool(pred(q, t))
 
         def keep(n):
             g = geoms.fn((n,))
             if g is None:
                 return False
             if isinstance(g, Maybe):
-                return s_and(s_not(g.none), mk_bool(pred(q, g.val.term)))
-            return mk_bool(pred(q, g.term))
+                return s_and(s_not(g.none), holds(g.val.term))
+            return holds(g.term)
         arr = np.index_set(geoms.shape[0], keep, 'hits')
         arr.query = (self, geometry, predicate)
         reg = getattr(c, 'strtree_results', None)
@@ -216,6 +224,26 @@ def unary_union(geoms):
     used('SH-UNARY-UNION')
     core.ctx().event('unary_union', geoms)
     return UnionOf(geoms)
+
+
+class CoverageUnionOf:
+    """shapely.coverage_union_all: NOT the union in general -- it only dissolves edges shared vertex for vertex and assumes, without checking,
+    that the inputs form a valid polygonal coverage"""
+    _pyvc_model_class = True
+
+    def __init__(self, geoms):
+        self.geoms = geoms
+
+    @property
+    def bounds(self):
+        return BoundsOf(self)
+
+
+@model
+def coverage_union_all(geoms, **kw):
+    used('SH-COVERAGE-UNION')
+    core.ctx().event('coverage_union_all', geoms)
+    return CoverageUnionOf(geoms)
 
 
 @model
@@ -523,6 +551,8 @@ class ShapelyModule:
     get_coordinates = staticmethod(get_coordinates)
     is_valid = staticmethod(is_valid)
     unary_union = staticmethod(unary_union)
+    union_all = staticmethod(unary_union)
+    coverage_union_all = staticmethod(coverage_union_all)
     box = staticmethod(box)
     geometry = _GeometryMod
     strtree = _StrtreeMod
